@@ -172,6 +172,73 @@ def depth : Val → Nat
   | .raw _ => 0
   | .wrap _ _ v => depth v + 1
 
+/-! ## Histories on ONE wrapper object
+
+A wrapper stores a *reference* to the wrapped object (`self._obj = obj`), not a copy: when the object
+changes state — through the wrapper (a forwarded call or method with a side effect) or directly — every
+layer of the stack sees the new state, and `__reduce__`, which calls `dumps(self._obj)` each time it
+runs, serialises the state the object has **at that pickling**.  A received copy is a separate object
+(`cloudpickle.loads` builds new objects): later changes of the original do not reach it and changes of
+a copy do not reach the original or other copies. -/
+
+/-- replace the bare object at the bottom of a stack of wrappers by its new state -/
+def mapCore (f : Obj → Obj) : Val → Val
+  | .raw o => .raw (f o)
+  | .wrap k keep v => .wrap k keep (mapCore f v)
+
+/-- `pickle.loads(pickle.dumps(v))` *now*, spelled as the code does it: for a wrapper, `__reduce__` runs
+at this moment, reads the fields `_keep_wrapper` and `_obj` as they are at this moment (there is no
+other field: nothing is remembered from an earlier pickling), and the reduce value is applied on the
+receiving side; a bare object goes through cloudpickle. -/
+def pickleNow (rt : Obj → Obj) : Val → Val
+  | .raw o => .raw (rt o)
+  | .wrap _ keep v => rebuild (trip rt) (reduce keep v)
+
+/-- a history is played on a session: the live wrapper (held by the sender) and the copies received so
+far, oldest first -/
+structure Session where
+  live : Val
+  got : List Val
+
+/-- apply `f` to the `j`-th element (nothing happens when there is no such element) -/
+def modifyAt (f : Val → Val) : Nat → List Val → List Val
+  | _, [] => []
+  | 0, x :: xs => f x :: xs
+  | j + 1, x :: xs => x :: modifyAt f j xs
+
+/-- one event of a history -/
+inductive HOp where
+  /-- the wrapped object of the live wrapper changes state (through the wrapper or directly) -/
+  | mutate (f : Obj → Obj)
+  /-- `src = none`: the live wrapper is pickled and the copy received;
+      `src = some j`: the `j`-th received copy is itself pickled (sent on / sent back) and received -/
+  | pickle (src : Option Nat)
+  /-- the object inside the `j`-th received copy changes state -/
+  | mutateCopy (j : Nat) (f : Obj → Obj)
+
+/-- the value an event `pickle src` serialises -/
+def srcVal (s : Session) : Option Nat → Option Val
+  | none => some s.live
+  | some j => s.got[j]?
+
+def hstep (rt : Obj → Obj) (s : Session) : HOp → Session
+  | .mutate f => { s with live := mapCore f s.live }
+  | .pickle src =>
+    match srcVal s src with
+    | some v => { s with got := s.got ++ [pickleNow rt v] }
+    | none => s
+  | .mutateCopy j f => { s with got := modifyAt (mapCore f) j s.got }
+
+def hrun (rt : Obj → Obj) : Session → List HOp → Session
+  | s, [] => s
+  | s, op :: ops => hrun rt (hstep rt s op) ops
+
+/-- the state of the live object after a history: only `mutate` events count -/
+def liveMut : List HOp → Obj → Obj
+  | [], o => o
+  | .mutate f :: ops, o => liveMut ops (f o)
+  | _ :: ops, o => liveMut ops o
+
 /-- cloudpickle's round trip keeps the observable behaviour of a bare object (the hypothesis `rt x ≈ x`) -/
 def Faithful (rt : Obj → Obj) : Prop :=
   ∀ o, (rt o).callable = o.callable ∧ (rt o).attr = o.attr ∧ (rt o).call = o.call
